@@ -13,7 +13,6 @@ CONTRACT = [
     (r"^std::result::Result::<T, E>::(unwrap|expect|unwrap_err|expect_err)$", "unwrap", "Err"),
     (r"^std::ops::Index::index$|^std::ops::IndexMut::index_mut$", "index", "out of bounds / missing key"),
     (r"^std::iter::Iterator::step_by$", "step_by", "step == 0"),
-    (r"^arrow2::bitmap::MutableBitmap::from_len_set$", "alloc", "capacity"),
     (r"^std::slice::<impl \[T\]>::copy_from_slice$", "copy_from_slice", "length mismatch"),
     (r"^std::slice::<impl \[T\]>::split_at(_mut)?$", "split_at", "mid > len"),
     (r"^std::vec::Vec::<T(, A)?>::(remove|insert|swap_remove|drain|split_off)$", "vec-index", "out of bounds"),
